@@ -829,6 +829,89 @@ func collectorChannel(o vh.Opts, r *vh.RNG, rep *vh.Report) {
 		add(ids, keep)
 	}
 	rep.AddChannel(ch, o.Driver)
+
+	// whole histories: real collector + real DocsPositions.SetMultiple + Filter, as appendWorker drives them
+	ci := vh.NewChannel("collector.ingest", "histories of bulks through the real metaDataCollector (AppendMeta, incl. NESTED metas: Size 0, same ID and position as the parent), the real DocsPositions.SetMultiple and Filter when it dropped something: per bulk MinMID/MaxMID/DocsCounter/collector IDs (what UpdateStats and AppendIDs receive) vs SV.FracInfo.setMultiple/survivors/collectorStats; retried IDs, IDs repeated in a bulk, nested metas; non-trivial = a nested meta and a dropped duplicate in the history")
+	type meta struct {
+		id     seq.ID
+		nested bool
+	}
+	runHist := func(hist [][]meta, tags ...string) {
+		dp := frac.NewSyncDocsPositions()
+		var bulksS, steps []string
+		nested, dropped := false, false
+		for bi, b := range hist {
+			c := frac.VerifNewCollectorC17()
+			c.Init(uint32(bi))
+			for _, m := range b {
+				size := uint32(10)
+				if m.nested {
+					size, nested = 0, true
+				}
+				c.AppendMeta(frac.MetaData{ID: m.id, Size: size, Tokens: []frac.MetaToken{{Key: []byte("service"), Value: []byte("c14")}}})
+			}
+			st := c.State()
+			var es []string
+			for i, id := range st.IDs {
+				es = append(es, fmt.Sprintf("%d.%d@%d", uint64(id.MID), uint64(id.RID), uint64(st.Positions[i])))
+			}
+			bulksS = append(bulksS, vh.JoinStrs(es, ","))
+			appended := dp.SetMultiple(st.IDs, st.Positions)
+			if len(appended) != len(st.IDs) {
+				c.Filter(appended)
+				dropped = true
+			}
+			st = c.State()
+			var sv []string
+			for _, id := range st.IDs {
+				sv = append(sv, fmt.Sprintf("%d.%d", uint64(id.MID), uint64(id.RID)))
+			}
+			steps = append(steps, fmt.Sprintf("%d/%d/%d/%s", uint64(st.MinMID), uint64(st.MaxMID), st.DocsCounter, vh.JoinStrs(sv, ",")))
+		}
+		ci.Add("ingeststeps "+strings.Join(bulksS, ";"), "ok "+strings.Join(steps, ";"), nested && dropped, tags...)
+	}
+	A, B, C := seq.ID{MID: 5, RID: 1}, seq.ID{MID: 7, RID: 2}, seq.ID{MID: 3, RID: 3}
+	// small exhaustive: bulk 1 over {A, A-nested, B}, bulk 2 = any sequence of <= 3 metas over {A, B, C, nested-of-previous}
+	for _, b1 := range [][]meta{{{A, false}}, {{A, false}, {A, true}}, {{A, false}, {B, false}}, {{A, false}, {A, true}, {B, false}}, {{A, false}, {A, false}}} {
+		var rec func(cur []meta)
+		rec = func(cur []meta) {
+			if len(cur) > 0 {
+				runHist([][]meta{b1, cur}, "shape=small-exhaustive")
+			}
+			if len(cur) == 3 {
+				return
+			}
+			for _, id := range []seq.ID{A, B, C} {
+				rec(append(append([]meta{}, cur...), meta{id, false}))
+			}
+			if len(cur) > 0 {
+				rec(append(append([]meta{}, cur...), meta{cur[len(cur)-1].id, true}))
+			}
+		}
+		rec(nil)
+	}
+	for i := 0; i < o.Pick(200, 2000); i++ {
+		var hist [][]meta
+		var known []seq.ID
+		for b := 0; b < r.Range(1, 4); b++ {
+			var bulk []meta
+			for j := 0; j < r.Range(1, 6); j++ {
+				switch {
+				case len(bulk) > 0 && r.Chance(1, 5):
+					bulk = append(bulk, meta{bulk[len(bulk)-1].id, true})
+				case len(known) > 0 && r.Chance(1, 3):
+					bulk = append(bulk, meta{known[r.Intn(len(known))], false})
+				default:
+					id := seq.ID{MID: seq.MID(1_700_000_000_000 + uint64(r.Intn(500))), RID: seq.RID(len(known) + 1)}
+					known = append(known, id)
+					bulk = append(bulk, meta{id, false})
+				}
+			}
+			hist = append(hist, bulk)
+		}
+		runHist(hist, "shape=random")
+	}
+	rep.AddChannel(ci, o.Driver)
 }
 
 // ---------------------------------------------------------------- system: real fractions in a child process
@@ -898,7 +981,7 @@ type store struct {
 }
 
 func openStore(dir string) (*store, error) {
-	fm := fracmanager.NewFracManager(&fracmanager.Config{FracSize: 1 << 40, TotalSize: 1 << 42, ShouldReplay: false, DataDir: dir})
+	fm := fracmanager.NewFracManager(&fracmanager.Config{FracSize: 1 << 40, TotalSize: 1 << 42, ShouldReplay: false, DataDir: dir, MaintenanceDelay: 20 * time.Millisecond})
 	if err := fm.Load(context.Background()); err != nil {
 		return nil, err
 	}
@@ -922,6 +1005,9 @@ func fracLine(f realFrac, stage string, fr frac.Fraction, probes []uint64) strin
 	kind := "active"
 	if f.sealed {
 		kind = "sealed"
+	}
+	if f.sealed && stage == "reloaded-legacy-cache" {
+		kind = "legacy" // the cached info has no distribution: it must stay nil (occupancy unknown, borders only)
 	}
 	var bs []string
 	for _, b := range f.bulks {
@@ -1463,15 +1549,65 @@ func childMain(path string) {
 		st.fm.WaitIdle()
 		fracs[len(fracs)-1].sealed = true
 	}
+	// restart 1: WITH an up-to-date .frac-cache (the maintenance loop writes it): every sealed info comes from the cache
+	cachePath := filepath.Join(dir, consts.FracCacheFileSuffix)
+	waitCache := func() map[string]map[string]json.RawMessage {
+		deadline := time.Now().Add(10 * time.Second)
+		for {
+			var m map[string]map[string]json.RawMessage
+			if raw, err := os.ReadFile(cachePath); err == nil && json.Unmarshal(raw, &m) == nil {
+				ok := true
+				for _, f := range fracs {
+					if _, has := m[f.name]; !has {
+						ok = false
+					}
+				}
+				if ok {
+					return m
+				}
+			}
+			if time.Now().After(deadline) {
+				fmt.Println("child-error cache: .frac-cache was not written with all fractions")
+				os.Exit(3)
+			}
+			time.Sleep(10 * time.Millisecond)
+		}
+	}
+	cached := waitCache()
+	withDist := 0
+	for _, e := range cached {
+		if d, ok := e["distribution"]; ok && string(d) != "null" {
+			withDist++
+		}
+	}
+	fmt.Printf("T\tcache-entries-with-distribution=%d\n", withDist)
 	st.fm.Stop()
+	cached = waitCache() // Stop does not write; what is on disk now is what the next start reads
 	if st, err = openStore(dir); err != nil {
 		fmt.Println("child-error reopen:", err)
 		os.Exit(3)
 	}
-	stageChecks("reloaded")
-	// restart 2: without the cache file, every info is read from the info block of the index file
+	stageChecks("reloaded-cache")
+	// restart 2: a cache file in the older layout: entries without "distribution" and without "sealing_time"
 	st.fm.Stop()
-	os.Remove(filepath.Join(dir, consts.FracCacheFileSuffix))
+	cached = waitCache()
+	for _, e := range cached {
+		delete(e, "distribution")
+		delete(e, "sealing_time")
+	}
+	legacy, _ := json.Marshal(cached)
+	if err := os.WriteFile(cachePath, legacy, 0o660); err != nil {
+		fmt.Println("child-error legacy cache:", err)
+		os.Exit(3)
+	}
+	if st, err = openStore(dir); err != nil {
+		fmt.Println("child-error reopen-legacy:", err)
+		os.Exit(3)
+	}
+	stageChecks("reloaded-legacy-cache")
+	// restart 3: without the cache file, every info is read from the info block of the index file
+	st.fm.Stop()
+	os.Remove(cachePath)
 	if st, err = openStore(dir); err != nil {
 		fmt.Println("child-error reopen2:", err)
 		os.Exit(3)
@@ -1727,6 +1863,8 @@ func systemOracle(o vh.Opts, rep *vh.Report, scs []scenario) {
 				fi.Add(f[2], f[3], strings.Contains(f[1], "dist=yes"), tags...)
 			case "N":
 				rep.Note("%s: %s", sc.Name, f[1])
+			case "T":
+				fi.Tag(f[1])
 			case "S":
 				// S stage q qf qt status kept want= missing= extra=
 				var qf, qt uint64
